@@ -229,7 +229,7 @@ class Doist(tyming.Tymist):
             self.enter(temp=temp)  # runs enter context on each doer
 
             tymer = tyming.Tymer(tymth=self.tymen(), duration=self.limit)
-            self.timer.start()
+            self.timer.start(duration=self.tock)  # .tock may have changed since init
 
             while True:  # until doers complete or exception or keyboardInterrupt
                 try:
